@@ -40,7 +40,7 @@ func drawWrites(c *harness.Ctx, label string, maxN int) []writePlan {
 		} else {
 			sz = c01Sizes[t.Draw(label+".szi", len(c01Sizes))]
 		}
-		pause := []int{0, 0, 0, 1, 30, 1000}[t.Draw(label+".pause", 6)]
+		pause := []int{0, 0, 0, 1, 30, 1000, 45000}[t.Draw(label+".pause", 7)]
 		out = append(out, writePlan{Size: sz, PauseMs: pause})
 	}
 	return out
